@@ -1,9 +1,29 @@
+ENV = "one database, 16 shards; key under test 'a'; watches registered on 'a' and on 'q' (same shard); post-conditions: C08 changed=>reported, the other key never reported"
+def E(name, props, desc, encodes, bounds, tier="quick", timeout=900):
+    K(name, "eng", props, tier=tier, timeout=timeout, desc=desc + " | " + ENV, encodes=encodes + ["StorageEngine::get_shard", "get_shard_index", "register_watch", "was_modified_since", "ShardWatchTracker::*"], bounds=bounds, stubs=STD_STUBS + ["alloc::fmt::format -> empty String"])
 
-K("c01_getrange_len3", "eng", ["C01", "C06"], tier="quick", timeout=600,
-  desc="GETRANGE on a present 3-byte symbolic string, start/end full-width symbolic isize: reply = Redis getrangeCommand model, value untouched, no panic/overflow",
-  encodes=["StorageEngine::getrange", "StorageEngine::get_shard", "StorageEngine::get_shard_index"],
-  bounds="value exactly 3 symbolic bytes; start,end: all 2^64 isize values each; unwind 5",
-  stubs=STD_STUBS)
-K("c01_getrange_len0", "eng", ["C01", "C06"], tier="quick", timeout=600,
-  desc="GETRANGE on a present empty string, start/end full-width symbolic",
-  encodes=["StorageEngine::getrange"], bounds="value empty; start,end all isize; unwind 5", stubs=STD_STUBS)
+E("c01_getrange_len3", ["C01", "C06"], "GETRANGE on a present 3-byte symbolic string, start/end full-width symbolic isize: reply = Redis getrangeCommand model, value untouched, no panic/overflow", ["StorageEngine::getrange"], "value exactly 3 symbolic bytes; start,end all isize; unwind 5")
+E("c01_getrange_len0", ["C01", "C06"], "GETRANGE on a present empty string, start/end full-width symbolic", ["StorageEngine::getrange"], "value empty; start,end all isize; unwind 5")
+PRE = {"absent": "key absent", "str": "2 symbolic bytes", "list": "1-element list (wrong type)", "set": "1-member set", "hash": "1-field hash", "nonint": "2-byte non-integer string"}
+for op, pres, what, fn in (
+    ("append", ("absent", "str", "list"), "APPEND one symbolic byte: reply and post-state = Redis model; WRONGTYPE leaves the dataset unchanged", "append"),
+    ("strlen", ("absent", "str", "hash"), "STRLEN: reply = model, read-only, WRONGTYPE on other types", "strlen"),
+    ("set", ("absent", "str", "list"), "SET (set_string/set_value): overwrites any existing type with the 2 symbolic bytes, no TTL afterwards", "set_value"),
+    ("setnx", ("absent", "str", "set"), "SETNX: sets only when absent; existing key of any type unchanged", "set_string_nx"),
+    ("delete", ("absent", "str", "hash"), "DEL: removes a key of any type, clears the expiry index, reply 0/1", "delete"),
+    ("exists_type", ("absent", "str", "list", "set", "hash"), "EXISTS and TYPE replies for every pre-state type, read-only", "exists/key_type"),
+    ("get", ("absent", "str"), "GET (get_string): stored bytes / nil / WRONGTYPE, read-only", "get/get_string"),
+):
+    for i, pre in enumerate(pres):
+        E("c01_%s_%s" % (op, pre), ["C01", "C08", "C06"], what + "; pre-state: " + PRE[pre], ["StorageEngine::" + fn],
+          "pre-state content symbolic (2 bytes), argument bytes symbolic; unwind 5-8", tier="quick" if i < 2 else "thorough")
+INTC = ["Value::integer / Value::as_integer -> abstract round-tripping 8-byte codec (std i64 Display/FromStr on symbolic values is trusted, not encoded)"]
+K("c01_incrby_int", "eng", ["C01", "C08", "C06"], tier="quick", timeout=900,
+  desc="INCRBY on an integer value: ALL current values x ALL increments (i64 x i64): result = checked_add, overflow refused without effect, watchers notified", encodes=["StorageEngine::incr_by"], bounds="cur, inc full-width symbolic i64; unwind 10", stubs=STD_STUBS + INTC)
+for pre in ("absent", "nonint", "list"):
+    K("c01_incrby_" + pre, "eng", ["C01", "C08", "C06"], tier="quick" if pre == "absent" else "thorough", timeout=900,
+      desc="INCRBY any i64 on pre-state: %s: missing key starts at 0; non-integer / wrong type refused without effect" % PRE[pre], encodes=["StorageEngine::incr_by"], bounds="inc full-width symbolic; unwind 10", stubs=STD_STUBS + INTC)
+for nm, what in (("same_shard", "a -> q (same shard)"), ("over_existing", "a -> q where q holds a list"), ("missing", "missing source")):
+    K("c01_rename_" + nm, "eng", ["C01", "C02", "C08"], tier="quick", timeout=900,
+      desc="RENAME %s: value and TTL deadline travel, source disappears, destination replaced, expiry index follows the value, both keys reported to watchers; missing source = 'no such key' without effect" % what,
+      encodes=["StorageEngine::rename"], bounds="value 2 symbolic bytes, deadline fixed; unwind 5", stubs=STD_STUBS)
